@@ -18,6 +18,7 @@ INVARIANT AuthSound
 INVARIANT NoProofNoAuth
 INVARIANT SelSound
 INVARIANT ByeCloses
+CONSTRAINT DataOnlyWithoutTls
 PROPERTY CommandClauses
 PROPERTY ExchangeClauses
 PROPERTY IdentityOnlyByAuth
